@@ -198,11 +198,18 @@ theorem edges_complete_once (cfg : Cfg) (r p : Raw) (h0 : r.prepared = false) (h
   by_cases hce : cfg.ce = true
   · simp only [hce, if_true, true_and]
     rw [completeBy_count]
-    have : ((facesAfter cfg r).flatMap faceSides).map keyE = (facesAfter cfg r).flatMap faceSides := by
-      rw [List.map_flatMap]
-      congr 1; funext f
-      simp [faceSides, sideAt, keyE_idem]
-    rw [this]
+    have hmap : (validSides r.verts.length (facesAfter cfg r)).map keyE = validSides r.verts.length (facesAfter cfg r) := by
+      unfold validSides
+      conv => rhs; rw [← List.map_id (List.filter _ _)]
+      apply List.map_congr_left
+      intro s hs
+      obtain ⟨f, _, hsf⟩ := List.mem_flatMap.mp (List.mem_filter.mp hs).1
+      simp only [faceSides, List.mem_map] at hsf
+      obtain ⟨i, _, rfl⟩ := hsf
+      simp [sideAt, keyE_idem]
+    have hmem : k ∈ validSides r.verts.length (facesAfter cfg r) ↔ k ∈ (facesAfter cfg r).flatMap faceSides := by
+      unfold validSides; rw [List.mem_filter]; exact ⟨fun h => h.1, fun h => ⟨h, hk⟩⟩
+    rw [hmap]; simp only [hmem]
   · simp [hce]
 
 /-! ## prepare: faces from cells -/
@@ -526,21 +533,19 @@ the mesh of class `d` (0 PointCloud … 3 VolumeMesh) sharing the prepared data 
 lost, the containers the class does not have are fresh. Preparing it again (same configuration) returns
 exactly the containers the mesh had: vertices, edges (no re-flagging of `hard_edges`, no edge or face added
 twice), attributes, corner and cell-face records.
-Hypotheses: `r` is fresh raw data (empty corner containers: the quantifier of the statement) and the face
-sides are valid edges (faces index existing vertices, no repeated consecutive vertex). -/
+Hypothesis: `r` is fresh raw data (empty corner containers: the quantifier of the statement). Degenerate faces
+(repeated consecutive vertex, non-existent vertex) are covered: their sides are never stored (round 3b repair). -/
 theorem prepare_rewrap_prepare (cfg : Cfg) (r p : Raw) (d : Nat) (h0 : r.prepared = false)
-    (h : prepare cfg r = .ok p) (hfc : r.fcElem = []) (hcc : r.ccElem = []) (hcf : r.cfElem = [])
-    (hsides : ∀ s ∈ (facesAfter cfg r).flatMap faceSides, validE r.verts.length s = true) :
+    (h : prepare cfg r = .ok p) (hfc : r.fcElem = []) (hcc : r.ccElem = []) :
     prepare cfg (rewrap ⟨d, p⟩) = .ok { rewrap ⟨d, p⟩ with prepared := true } :=
-  prepare_canon cfg _ (rewrap_canon cfg p d (prepare_makes_canon cfg r p h0 h hfc hcc hcf hsides)) rfl
+  prepare_canon cfg _ (rewrap_canon cfg p d (prepare_makes_canon cfg r p h0 h hfc hcc)) rfl
 
 /-- … in particular the class chosen by `_instanciate_raw_mesh_data` is the same again -/
 theorem rewrap_same_class (cfg : Cfg) (r p : Raw) (d : Nat) (h0 : r.prepared = false)
-    (h : prepare cfg r = .ok p) (hfc : r.fcElem = []) (hcc : r.ccElem = []) (hcf : r.cfElem = [])
-    (hsides : ∀ s ∈ (facesAfter cfg r).flatMap faceSides, validE r.verts.length s = true) :
+    (h : prepare cfg r = .ok p) (hfc : r.fcElem = []) (hcc : r.ccElem = []) :
     ∃ b, instantiate cfg (rewrap ⟨d, p⟩) (some d) = .ok b ∧ b.dim = d := by
   unfold instantiate
-  rw [prepare_rewrap_prepare cfg r p d h0 h hfc hcc hcf hsides]
+  rw [prepare_rewrap_prepare cfg r p d h0 h hfc hcc]
   refine ⟨_, rfl, ?_⟩
   apply Nat.max_eq_left
   unfold dimensionality
@@ -557,7 +562,6 @@ example : (demoOut.map (·.edges.head?)) = some (some (0, 3)) := by decide
 example : (demoOut.map (·.cfAdj)) = some [0, 0, 0, 0, 1, 1, 1, 1] := by decide
 example : (demoOut.map (fun p => p.eattrs.map (fun a => (a.name, a.read 0, a.hasKey 1)))) =
     some [("w", 10, true), ("s", 5, false), ("hard_edges", 1, false)] := by decide
-example : ∀ s ∈ (facesAfter {} demo).flatMap faceSides, validE demo.verts.length s = true := by decide
 example : (demoOut.bind (fun p => match prepare {} (rewrap ⟨3, p⟩) with | .ok q => some (q.edges == p.edges && q.eattrs == p.eattrs && q.cfElem == p.cfElem) | _ => none)) = some true := by decide
 
 
@@ -667,5 +671,63 @@ example :
           | .ok p => (p.faces.length, p.ccElem, p.ccAdj, p.cfAdj)
           | .error _ => (0, [], [], []))
       | .error _ => (0, [], [], [])) = (7, [0,1,2,3,1,2,3,4], [0,0,0,0,1,1,1,1], [0,0,0,0,1,1,1,1]) := by decide
+
+
+/-! ## invalid edges produced by the completion (round 3b) -/
+
+/-- translated: the test under which `_complete_edges_from_faces` skips a side `(a, b) = keyify(…)` (so `a ≤ b`),
+as written, is "not a valid edge" -/
+theorem completion_skip_bridge (n : Nat) (a b : Int) (h : a ≤ b) :
+    C02S.completionSkips a b n = !validE n (a, b) := by
+  rw [Bool.eq_iff_iff]
+  simp only [C02S.completionSkips, Bool.or_eq_true, Bool.not_eq_true', Bool.and_eq_true, decide_eq_true_eq,
+    Bool.not_eq_eq_eq_not, Bool.not_true, Bool.and_eq_false_imp]
+  have hv := validE_iff n (a, b)
+  constructor
+  · intro hs
+    cases hval : validE n (a, b) with
+    | false => rfl
+    | true => have := hv.mp hval; simp only [] at this; rcases hs with hs | hs <;> simp_all <;> omega
+  · intro hs
+    by_cases hab : a = b
+    · exact Or.inl hab
+    · right
+      by_cases h0 : 0 ≤ a
+      · by_cases hb : b < n
+        · exfalso
+          have : validE n (a, b) = true := hv.mpr ⟨hab, h0, by omega, by omega, hb⟩
+          simp [this] at hs
+        · simp [h0, hb]
+      · simp [h0]
+
+/-- the completion never stores an invalid edge, not even temporarily: what it appends to the (shared) edge container
+are valid, low-index-first sides of faces. In particular a second construction from a built mesh appends nothing to
+the container the first mesh still holds. -/
+theorem completion_appends_only_valid_edges (cfg : Cfg) (r : Raw) :
+    ∃ added, (completed cfg r).edges = r.edges ++ added ∧
+      ∀ e ∈ added, validE r.verts.length e = true ∧ e.1 < e.2 ∧ e ∈ (facesAfter cfg r).flatMap faceSides := by
+  rw [completed_edges]; unfold edgesAfter
+  split
+  · obtain ⟨ad, h, hm⟩ := completeBy_prefix keyE r.edges (validSides r.verts.length (facesAfter cfg r))
+    refine ⟨ad, h, ?_⟩
+    intro e he
+    have hv := List.mem_filter.mp (hm e he)
+    obtain ⟨f, _, hsf⟩ := List.mem_flatMap.mp hv.1
+    simp only [faceSides, List.mem_map] at hsf
+    obtain ⟨i, _, rfl⟩ := hsf
+    have hn := keyE_normal r.verts.length _ hv.2
+    simp only [sideAt, keyE_idem] at hn hv ⊢
+    exact ⟨hv.2, hn.2.1, hv.1⟩
+  · exact ⟨[], by simp, by simp⟩
+
+/-- non-vacuity / regression witness of the seeded change C02-e: a collapsed quad [0,2,2,3] next to a triangle, one
+valid declared edge given high-first; no self-loop is stored and building again keeps the 5 edges -/
+example :
+    (match prepare {} { verts := [[0,0,0],[1,0,0],[1,1,0],[0,1,0]], edges := [(2, 0)], faces := [[0,1,2],[0,2,2,3]] } with
+      | .ok p =>
+        (match prepare {} (rewrap ⟨2, p⟩) with
+          | .ok q => (p.edges, q.edges == p.edges)
+          | .error _ => ([], false))
+      | .error _ => ([], false)) = ([(0, 2), (0, 1), (1, 2), (2, 3), (0, 3)], true) := by decide
 
 end Mouette.Props.C02
